@@ -7,7 +7,7 @@ from .common import Oracle, Suite, errname, hx, merge
 from .formats_common import cps
 
 GEN_UNITS = ["ShaCrypt", "B64", "MiscTables", "PyUnicode", "LibpassAll"]
-LEAN_TARGETS = ["PasslibVerif.Props.C20", "PasslibVerif.Props.C20Pbkdf", "PasslibVerif.Props.C20Bcrypt"]
+LEAN_TARGETS = ["PasslibVerif.Props.C20", "PasslibVerif.Props.C20Pbkdf", "PasslibVerif.Props.C20Bcrypt", "PasslibVerif.Props.C20PbkdfInterop"]
 ASSUMPTIONS = [
     "hashlib.pbkdf2_hmac and the bcrypt package are external code shared by both libraries; for them the model's digest is the RFC 8018 / bcrypt "
     "specification (Spec.Pbkdf, compared on every run) and interop is established at the string level plus differential runs",
@@ -20,10 +20,15 @@ EXPLANATION = (
     "implicit-5000 form (each side's string parses under the other's parser — C07 round-trip theorems for both — and both checksum implementations equal the "
     "published algorithm — C02); update check False for own fresh hashes, True for another cost, True/False/False (needs_update/identify/verify) for "
     "unrecognised strings; a sha-crypt hasher recognises nothing outside its own two-character prefix. libpass context laws are proved under C04. "
+    "pbkdf2-sha256 / pbkdf2-sha512 (Props.C20Pbkdf, C20PbkdfInterop): for every secret, every non-empty salt and every non-zero cost the libpass hasher verifies "
+    "its own hash, another secret verifies iff it derives the same key, needs_update = (cost differs), records of the other digest are foreign; both libraries "
+    "render THE SAME STRING (libpass hash model = passlib hash model of C01Pbkdf over RFC 8018 / FIPS 180-4), hence each verifies what the other made. "
+    "bcrypt (Props.C20Bcrypt): BcryptHasher identifies / verifies exactly as the package's checkpw answers on strings of the package's layout, rejects the "
+    "legacy $2$ / $2x$ identifiers and everything unrecognised, update check = (cost differs). "
     "Correspondence: the compiled libpass-hasher model vs the real SHA256Hasher/SHA512Hasher/PBKDF2 handlers (hash with given salt, verify, identify, "
     "needs_update on own, foreign, passlib-made and mutated strings); cross-verification matrix on the real code for all six shared formats."
 )
-ONLY_CORRESPONDENCE = ["bcrypt and bcrypt-sha256 interop (the bcrypt package computes both sides' digests)", "pbkdf2 interop beyond the string level"]
+ONLY_CORRESPONDENCE = ["bcrypt and bcrypt-sha256 digests (the bcrypt package computes both sides' digests: a parameter of the model; the hashers' decision logic is proved)"]
 
 H64 = "./0123456789ABCDEFGHIJKLMNOPQRSTUVWXYZabcdefghijklmnopqrstuvwxyz"
 
